@@ -35,3 +35,4 @@ func vxAll(c ...bool) bool
 func vxAny(c ...bool) bool
 func vxLock()
 func vxUnlock()
+func vxJitter()
